@@ -237,7 +237,8 @@ def wf(geo):
     for c in geo.columnlist:
         if len(c.node) < 3: bad('col-orientation', 'column %r has %d nodes' % (c.name, len(c.node))); continue
         a = shoelace([n.pos for n in c.node])
-        if not a > 0: bad('col-orientation', 'column %r has signed area %g' % (c.name, a))
+        per = sum(float(np.hypot(*(q.pos - p.pos))) for p, q in col_edges(c))
+        if not a > 1e-10 * per * per: bad('col-orientation', 'column %r has signed area %g (perimeter %g)' % (c.name, a, per))
         elif abs(c.area - a) > 1e-9 * max(1.0, abs(a)): bad('col-area-stale', 'column %r: stored area %.12g, polygon area %.12g' % (c.name, c.area, a))
     # 6. layer count matching the surface
     for c in geo.columnlist:
@@ -1114,7 +1115,8 @@ def main():
                         'histories_ending_in_an_ill_formed_state_not_extended': skipped,
                         'subtrees_truncated_by_time_budget': truncated, 'worker_cpu_seconds': round(cpu, 1),
                         'failure_classes(category op: count)': dict(sorted(classes.items()))})
-        out = {'evaluations': sum(counts.values()), 'distinct': histories, 'failures': kept, 'nfailures': sum(classes.values()),
+        contracts = ('wf', 'valid-mesh', 'check', 'specific', 'roundtrip', 'exception')
+        out = {'evaluations': sum(counts.get(c, 0) for c in contracts), 'distinct': histories, 'failures': kept, 'nfailures': sum(classes.values()),
                'samples': samples, 'seconds': time.time() - t0}
     finally:
         shutil.rmtree(tmpdir, ignore_errors=True)
